@@ -46,6 +46,11 @@ def poison_tables(kind, maxn):
         for mask in range(1, 1 << n):
             yield [list(bad) if (mask >> i) & 1 else list(good) for i in range(n)], mask
     yield [list(good), list(good)], 0
+    # scale probe: 12 records, the poison at every single position (two-digit record numbers) and at every adjacent pair
+    for k in range(12):
+        yield [list(bad) if i == k else list(good) for i in range(12)], 1 << k
+    for k in range(11):
+        yield [list(bad) if i in (k, k + 1) else list(good) for i in range(12)], 3 << k
 
 
 def part_runtime(sh, res):
